@@ -15,10 +15,11 @@ for id in $ids; do
   demo=""; pkgflag=""
   if [ -f OUT/seed_demo.rs ]; then
     demo=tests/seed_demo.rs
-    grep -q "cddl_derive\|cddl-derive" OUT/meta.json OUT/seed_demo.rs 2>/dev/null && [ "$id" = C17 ] && { demo=cddl-derive/tests/seed_demo.rs; pkgflag="-p cddl-derive"; }
+    grep -q 'path = "../src/codegen.rs"' OUT/seed_demo.rs && { demo=cddl-derive/tests/seed_demo.rs; pkgflag="-p cddl-derive"; }
     mkdir -p $(dirname $demo); cp OUT/seed_demo.rs $demo
   fi
-  cargo nextest run --workspace --no-fail-fast --offline --test-threads 12 -E 'not binary(seed_demo)' > /tmp/seedv.$id.suite.log 2>&1
+  filt="all()"; [ -n "$demo" ] && filt="not binary(seed_demo)"
+  cargo nextest run --workspace --no-fail-fast --offline --test-threads 12 -E "$filt" > /tmp/seedv.$id.suite.log 2>&1
   suite=$(grep -E "Summary" /tmp/seedv.$id.suite.log | head -1)
   [ -z "$suite" ] && suite="NO-SUMMARY: $(grep -E "^error" /tmp/seedv.$id.suite.log | head -3 | tr '\n' ' ')"
   grep -E "^\s+FAIL" /tmp/seedv.$id.suite.log | sort -u | head -5
